@@ -15,6 +15,7 @@ from world import Rng, World, amounts, enc_frac
 ID = "C19"
 LEAN_MODULES = ["QtyModel.Props.C19"]
 HARNESS_GROUPS = ()
+EXTRA_NEEDS_HARNESS = True     # the corpus comparison runs the full harness
 RULE = ("configurations {each of the 14 quantity features alone, none, all} x {std, no std} x {f64, decimal} x {serde on, off} "
         "(thorough: all 128; quick: 16 covering every value of every dimension): cargo check of a consumer crate that names "
         "the quantity, a unit constant and the derivation operator of that feature; plus a fixed operation corpus evaluated "
